@@ -280,6 +280,7 @@ static void add_assets(mz_zip_archive * pZip, mmd_engine * e, const char * direc
 void traverse_for_images(token * t, DString * text, mmd_engine * e, long * offset, char * destination, char * url) {
 	asset * a;
 	char * clean;
+	char * raw;
 	link * l;
 
 	while (t) {
@@ -288,9 +289,13 @@ void traverse_for_images(token * t, DString * text, mmd_engine * e, long * offse
 				if (t->next && t->next->type == PAIR_PAREN) {
 					t = t->next;
 
-					memcpy(url, &text->str[t->start + *offset + 1], t->len - 2);
-					url[t->len - 2] = '\0';
-					clean = clean_string(url, false, true);
+					// The URL can be longer than the caller's `url` buffer,
+					// so use a copy of the right size
+					raw = malloc(t->len - 1);
+					memcpy(raw, &text->str[t->start + *offset + 1], t->len - 2);
+					raw[t->len - 2] = '\0';
+					clean = clean_string(raw, false, true);
+					free(raw);
 
 					HASH_FIND_STR(e->asset_hash, clean, a);
 
